@@ -552,6 +552,7 @@ func runC06(c *Ctx) {
 // ---------------------------------------------------------------------------- C15
 
 func runC15(c *Ctx) {
+	observeNeuterIdentity = true
 	r := c.Rng
 	seeds := [][]byte{randBytes(r, 32), randBytes(r, 16), randBytes(r, 64)}
 	// TLC-generated histories over a pool of keys
